@@ -1354,6 +1354,22 @@ func (e *Endpoint) SetWriteDeadline(at time.Time) error {
 	return mkerr("set", res.err)
 }
 
+// CloseWrite / CloseRead: what *net.UnixConn and *net.TCPConn offer as well
+// (library code may look for them through an interface assertion).
+func (e *Endpoint) CloseWrite() error {
+	e.touch()
+	defer e.touch()
+	res := mustSelf().syscall(request{op: opCloseWrite, ep: e})
+	return mkerr("close", res.err)
+}
+
+func (e *Endpoint) CloseRead() error {
+	e.touch()
+	defer e.touch()
+	res := mustSelf().syscall(request{op: opCloseRead, ep: e})
+	return mkerr("close", res.err)
+}
+
 func (e *Endpoint) LocalAddr() net.Addr  { return simAddr{"sim", "local"} }
 func (e *Endpoint) RemoteAddr() net.Addr { return simAddr{"sim", "remote"} }
 
